@@ -415,7 +415,44 @@ def execute(cases, workers=16):
     return out
 
 
+def _tag_none(x, **kw):
+    return ('got', x)
+
+
+def _none_elements_run(nworkers, extracache, skipNone, elems):
+    from generatorpipeline import pipeline
+    st = pipeline(nworkers, extracache=extracache, skipNone=skipNone)(_tag_none)
+    return list(st(iter(elems)))
+
+
+def none_element_cases(ctx):
+    """None is a source ELEMENT like any other (a gap marker, the output of an upstream stage that keeps None): f is called with it and the
+    stream goes on — in-process and in workers alike"""
+    rng = ctx.rng
+    for nworkers in (0, 1, 2):
+        elems = [rng.choice([None, None, i]) for i in range(rng.choice([4, 7]))]
+        if None not in elems[:-1]:
+            elems[1] = None
+        cfg = dict(nworkers=nworkers, extracache=rng.choice([0, 1]), skipNone=rng.choice([True, False]))
+        case = dict(none_as_source_element=True, elements=[repr(e) for e in elems], **cfg)
+        ctx.case(('none-elements', nworkers, cfg['extracache'], cfg['skipNone'], tuple(repr(e) for e in elems)), True, sample=case)
+        ctx.count('none_as_source_element')
+        st, r = pipelib.isolated(_none_elements_run, (nworkers, cfg['extracache'], cfg['skipNone'], elems), timeout=60)
+        want = [('got', e) for e in elems]
+        if st != 'ok' or r != want:
+            ctx.fail('none-element-ends-stream', 'source %r with nworkers=%d: the stream delivered %s, f mapped over the source gives %s' % (
+                elems, nworkers, r if st == 'ok' else (st, str(r)[-200:]), want), case)
+
+
+def send_consumer_cases(ctx):
+    """a consumer that advances an in-process stream with send(value): the outputs are those of next() — f mapped over the source"""
+    from harness.props import c10
+    c10.hosted_stream_cases(ctx, only_send=True)
+
+
 def check(ctx):
+    none_element_cases(ctx)
+    send_consumer_cases(ctx)
     for c, r, m in execute(gen_cases(ctx)):
         with ctx.guard(c):
             judge(ctx, c, r, m)
@@ -431,6 +468,12 @@ def replay(ctx, data):
     if 'streams' in case:
         from harness.props import multistream
         multistream.replay(ctx, case)
+        return
+    if case.get('none_as_source_element'):
+        none_element_cases(ctx)
+        return
+    if case.get('hosted_stream'):
+        send_consumer_cases(ctx)
         return
     if 'chain' in case:
         chain_cases(ctx)
